@@ -75,6 +75,45 @@ fn pair_strategy() -> impl Strategy<Value = PairCase> {
 					}
 				}
 			}
+			4 | 5 => {
+				// a comment that both sides have and that differs only in the *kind* of white space (blank / TAB / VT / FF / CR)
+				let ws: [&str; 4] = if mode % 8 == 4 { ["\t", " ", "\u{b}", "\r"] } else { ["\u{c}", "\t", "\t", " "] };
+				let vary = |doc: &Option<String>, k: usize| -> Option<String> {
+					let d = doc.clone().unwrap_or_else(|| "two words\nand a second line".to_string());
+					let mut n = 0;
+					Some(d.chars().map(|c| if c == ' ' { n += 1; ws[(n + k) % 4].chars().next().unwrap() } else { c }).collect())
+				};
+				let shared: Vec<String> = b.classes.keys().filter(|k| a.classes.contains_key(*k)).cloned().collect();
+				if !shared.is_empty() {
+					let ck = &shared[(order % shared.len() as u64) as usize];
+					let (ac, bc) = (a.classes.get_mut(ck).unwrap(), b.classes.get_mut(ck).unwrap());
+					if ac.doc.is_none() {
+						ac.doc = Some("two words\nand a second line".into());
+					}
+					bc.doc = vary(&ac.doc, 0);
+					for (fk, bf) in bc.fields.iter_mut() {
+						if let Some(af) = ac.fields.get(fk) {
+							if af.doc.is_some() {
+								bf.doc = vary(&af.doc, 1);
+							}
+						}
+					}
+					for (mk, bm) in bc.methods.iter_mut() {
+						if let Some(am) = ac.methods.get(mk) {
+							if am.doc.is_some() {
+								bm.doc = vary(&am.doc, 2);
+							}
+							for (pk, bp) in bm.params.iter_mut() {
+								if let Some(ap) = am.params.get(pk) {
+									if ap.doc.is_some() {
+										bp.doc = vary(&ap.doc, 3);
+									}
+								}
+							}
+						}
+					}
+				}
+			}
 			_ => {}
 		}
 		PairCase { a, b, order }
@@ -318,6 +357,35 @@ fn apply_strategy() -> impl Strategy<Value = ApplyCase> {
 		let ns = 1 + (ns as usize) % (m.ns.len() - 1);
 		let mut tags = Vec::new();
 		let d = build_diff(&m, ns, &stream, &mut tags);
+		// one case in six: the target is much larger than what the diff speaks about (80 more classes, 80 more fields and
+		// methods in every class, 40 more parameters in every method) - the diff touches a small fraction of every level
+		let mut m = m;
+		if order % 6 == 0 {
+			let n = m.ns.len();
+			let row = |a: String, b: String| -> crate::mapmodel::Names {
+				let mut names: crate::mapmodel::Names = vec![None; n];
+				names[0] = Some(a);
+				names[ns] = Some(b);
+				names
+			};
+			for c in m.classes.values_mut() {
+				for k in 0..80 {
+					c.fields.entry(MemberKey::new(&format!("bulkF{k}"), "I")).or_insert(crate::mapmodel::MField { names: row(format!("bulkF{k}"), format!("namedF{k}")), doc: None });
+					c.methods.entry(MemberKey::new(&format!("bulkM{k}"), "()V")).or_insert(crate::mapmodel::MMethod { names: row(format!("bulkM{k}"), format!("namedM{k}")), doc: None, params: BTreeMap::new() });
+				}
+				for me in c.methods.values_mut().take(3) {
+					for k in 0..40usize {
+						let mut names: crate::mapmodel::Names = vec![None; n];
+						names[ns] = Some(format!("p{k}"));
+						me.params.entry(300 + k).or_insert(crate::mapmodel::MParam { names, doc: None });
+					}
+				}
+			}
+			for k in 0..80 {
+				let name = format!("bulk/K{k}");
+				m.classes.entry(name.clone()).or_insert(crate::mapmodel::MClass { names: row(name, format!("bulk/Named{k}")), ..Default::default() });
+			}
+		}
 		ApplyCase { m, d, ns, order }
 	})
 }
